@@ -33,6 +33,7 @@ type nativeOutcome struct {
 	Observed     []vexec.Obs `json:"observed"`
 	Reached      []string    `json:"reached"`
 	Unused       int         `json:"unused_vector_entries"`
+	AllocBytes   uint64      `json:"alloc_bytes"`
 }
 
 type knownFinding struct {
@@ -566,6 +567,9 @@ func runCheck(opt vexec.Options, prop string, seed int64, verif string) int {
 			case "panic":
 				reproduced = o.Panic != ""
 			}
+			if !reproduced && nativeShows(v, o) {
+				reproduced = true
+			}
 			if !reproduced && (v.Kind == "race" || v.Kind == "deadlock" || usesSchedule(v)) {
 				fmt.Printf("UNCONFIRMED property=%s harness=%s %q: found under a modelled goroutine schedule, not reproduced by native repetition (race detector on)\n", prop, h.Name, v.Label)
 				inconclusive = append(inconclusive, fmt.Sprintf("%s: schedule-dependent counterexample for %q not reproduced natively", h.Name, v.Label))
@@ -694,6 +698,9 @@ func runCheck(opt vexec.Options, prop string, seed int64, verif string) int {
 	return 0
 }
 
+const allocLabel = "allocation out of proportion to the input"
+const allocConfirmBytes = 60000
+
 // nativeShows: the native outcome exhibits the violation the engine reported.
 func nativeShows(v vexec.Violation, o nativeOutcome) bool {
 	switch v.Kind {
@@ -702,6 +709,13 @@ func nativeShows(v vexec.Violation, o nativeOutcome) bool {
 			if f == v.Label {
 				return true
 			}
+		}
+		if v.Label == allocLabel {
+			// the engine's verdict is about one make(); the real build is asked
+			// what it allocated over the whole case (inputs are <= 128 bytes, a
+			// legitimate decode stays far below this), and a panic of the real
+			// build on the same input is a violation of the same property
+			return o.AllocBytes > allocConfirmBytes || o.Panic != ""
 		}
 	case "panic":
 		return o.Panic != ""
